@@ -67,6 +67,7 @@ Proof.
   - exact meta_tree_wf.
   - exact meta_tree_extracts.
   - rewrite app_nil_r. exact meta_descriptors_published.
+  - vm_compute. reflexivity.
   - exact Hrun.
   - vm_compute. reflexivity.
 Qed.
